@@ -252,6 +252,52 @@ pub fn backpressure_case(rt: &tokio::runtime::Runtime, compressed: bool, n: usiz
     })
 }
 
+/// keep-alives over the WebSocket transport while the peer is slow to read (small socket buffers): the peer sends a burst of n
+/// keep-alives mixed with TINY_NONE packets that carry a request id (not keep-alives) and does not read for a while; the client reads
+/// them all; the peer then drains what the client wrote.  Returns (keep-alives sent, keep-alives handed to the caller, reply messages
+/// the peer received, other binary messages the peer received).
+pub fn ws_keepalive_case(rt: &tokio::runtime::Runtime, compressed: bool, n: usize) -> (usize, usize, usize, usize) {
+    rt.block_on(async {
+        let lsock = tokio::net::TcpSocket::new_v4().unwrap();
+        let _ = lsock.set_recv_buffer_size(4096); let _ = lsock.set_send_buffer_size(4096);
+        lsock.bind("127.0.0.1:0".parse().unwrap()).unwrap();
+        let listener = lsock.listen(1).unwrap();
+        let addr = listener.local_addr().unwrap();
+        let ka: Vec<u8> = raw_frame(compressed, 3, 0, &[0]); let other: Vec<u8> = raw_frame(compressed, 3, 7, &[0]);
+        let (ka2, other2) = (ka.clone(), other.clone());
+        let server = tokio::spawn(async move {
+            let (tcp, _) = listener.accept().await.unwrap();
+            let ws = tokio_tungstenite::accept_async(tcp).await.unwrap();
+            let (mut tx, mut rx) = ws.split();
+            let mut sent = 0usize;
+            // burst: ~10 frames per message
+            let mut i = 0; while i < n { let mut m = vec![]; for j in 0..10 { if i + j < n { if (i + j) % 10 == 9 { m.extend_from_slice(&other2); } else { m.extend_from_slice(&ka2); sent += 1; } } } i += 10; if tx.send(Message::Binary(m)).await.is_err() { break; } }
+            tokio::time::sleep(Duration::from_millis(300)).await;
+            // a few spaced keep-alives push out whatever the client still holds back
+            let mut replies = 0usize; let mut others = 0usize;
+            // (the adaptor hands a message to tungstenite and does not wait for the socket: what is still queued leaves on the connection's
+            // next activity, so the peer keeps the connection busy until every reply has arrived or nothing more comes)
+            for round in 0..80 { if tx.send(Message::Binary(ka2.clone())).await.is_ok() { sent += 1; }
+                loop { match tokio::time::timeout(Duration::from_millis(if round < 3 { 250 } else { 60 }), rx.next()).await { Ok(Some(Ok(Message::Binary(b)))) => { if b == ka2 { replies += 1 } else { others += 1 } }, Ok(Some(Ok(_))) => {}, _ => break } }
+                if round >= 3 && replies >= sent { break; } }
+            let _ = tx.close().await;
+            (sent, replies, others)
+        });
+        let csock = tokio::net::TcpSocket::new_v4().unwrap();
+        let _ = csock.set_send_buffer_size(4096); let _ = csock.set_recv_buffer_size(4096);
+        let tcp = csock.connect(addr).await.unwrap();
+        let _ = tcp.set_nodelay(true);
+        let (ws, _) = tokio_tungstenite::client_async("ws://127.0.0.1/connect", MaybeTlsStream::Plain(tcp)).await.unwrap();
+        let mut f = AFramed::new(Box::new(WebsocketStream::from(ws)), Codec::new(mode_of(compressed)));
+        let mut handed = 0usize;
+        loop { match tokio::time::timeout(Duration::from_secs(4), f.read()).await { Ok(Ok(p)) => { if p.maybe_pong().is_some() { handed += 1; } }, _ => break } }
+        drop(f);
+        let (sent, replies, others) = server.await.unwrap_or((0, 0, 0));
+        let _ = ka; let _ = other;
+        (sent, handed, replies, others)
+    })
+}
+
 pub fn run(a: &Args) {
     let rt = crate::c08::io_runtime();
     if let Some(r) = &a.replay {
